@@ -301,7 +301,7 @@ def build_heat(rng, name):
         pandapipes.create_sink(net, j, dy(rng, 0.5, 2, 16))
     # a heat exchanger in front of an extra consumer: its heat flow is what a power-to-heat coupling sets
     jx = pandapipes.create_junction(net, 6, 340.)
-    pandapipes.create_heat_exchanger(net, js[-1], jx, qext_w=-2e4)
+    pandapipes.create_heat_exchanger(net, js[-1], jx, qext_w=-2e4, inner_diameter_mm=150.)
     pandapipes.create_sink(net, jx, dy(rng, 0.5, 2, 16))
     pandapipes.set_user_pf_options(net, mode=rng.choice(["sequential", "bidirectional"]), use_numba=False)
     return net
@@ -454,7 +454,7 @@ def scenario(ctx, kind):
     p2h = None
     if "heat" in nets and "power" in nets and pools[("power", "load")]:
         li = pools[("power", "load")].pop(0)
-        p2h = (int(li), dy(rng, 0.5, 1, 16))
+        p2h = (int(li), rng.randint(1, 4) / 256)       # a small electric boiler: ~1 % of the load becomes heat
         p2h_class()(mn, p2h[0], 0, p2h[1], order=rng.choice(orders), level=rng.choice(levels), initial_run=ini)
     return mn, nets, cps, {"kind": kind, "fluids": [f1, f2], "levels": levels, "orders": orders, "initial_run": ini,
                            "heat_member": heat_set, "power_to_heat": p2h}
@@ -666,7 +666,9 @@ def monitor_divergence(ctx, n):
                     c.initial_run = False
                 nets[n_].controller["initial_run"] = False
         victim = rng.choice(sorted(nets))
-        if isinstance(nets[victim], pandapipes.pandapipesNet):
+        if victim == "heat":
+            nets[victim].pipe.at[nets[victim].pipe.index[0], "inner_diameter_mm"] = float("nan")   # liquids survive any sink
+        elif isinstance(nets[victim], pandapipes.pandapipesNet):
             pandapipes.create_sink(nets[victim], nets[victim].junction.index[-1], 1e7)
         else:
             pandapower.create_load(nets[victim], nets[victim].bus.index[-1], p_mw=1e6, q_mvar=1e6)
